@@ -5,6 +5,9 @@ from vf.ref import tx_ref as R
 from vf.runner import Acc, filler
 
 PROPERTY = "C05"
+CONCUR_FILES = ('bits/tx.py', 'bits/utils.py', 'bits/script/utils.py')
+# (thread a, thread b), warm-up: indices into seq_ops() - the ordinary single-case checks run concurrently (vf/concur.py)
+CONCUR_SCEN = [((0, 1), ()), ((1, 1), (0,)), ((0, 3), (6,)), ((6, 7), (8,))]
 LEVEL = "exploration"
 RULE = ("transactions generated from a grammar with the reference serialiser: dimensions segwit, n_in/n_out in "
         "{1,2,3,252,253,300}, scriptSig/scriptPubKey lengths in {0,1,75,76,252,253,255,256,65535,65536}, witness stacks of "
@@ -16,6 +19,7 @@ RULE = ("transactions generated from a grammar with the reference serialiser: di
 ASSUMPTIONS = ["vf/ref/tx_ref.py is the wire format (validated on the BIP143 example transactions and the genesis coinbase in the selftest)",
                "all-empty-witness segwit encodings and zero-input transactions are not well-formed and never generated"]
 OBLIGATIONS = {
+    "concurrent_calls": "interleavings of two concurrent calls (single-case checks in two threads, cold and after warm-up calls)",
     "history_sequences": "operation sequences (non-initial process states) explored",
     "empty_witness_mixed": "a segwit tx with an empty stack for one input and a non-empty one for another",
     "witness_item_ge_253": "a witness item of >= 253 bytes", "script_ge_253": "a script of >= 253 bytes",
@@ -165,6 +169,9 @@ CASES = {"tx": chk_tx, "compact": chk_compact}
 
 
 def run_case(kind, case):
+    if kind == "concurcase":
+        from vf import concur
+        return concur.replay_cases(run_case, PROPERTY, case, CONCUR_FILES)
     if kind == "seq":
         from vf import seqexplore
         return seqexplore.replay(run_case, case)
@@ -193,10 +200,17 @@ def jobs(tier, seed):
     js.append({"name": "textual", "part": "textual", "weight": 2})
     from vf.runner import seq_jobs
     js += seq_jobs(3, weight=3)
+    from vf.runner import concur_jobs
+    js += concur_jobs(len(CONCUR_SCEN))
     return js
 
 
 def run_job(job):
+    if job["part"] == "concurcase":
+        from vf.runner import run_concur_job
+        ops = seq_ops(dict(job, shard=[0, 1]))
+        scens = [{"threads": [ops[i] for i in th], "warm": [ops[i] for i in wm]} for th, wm in CONCUR_SCEN]
+        return run_concur_job(job, scens, run_case, PROPERTY, CONCUR_FILES)
     if job["part"] == "seq":
         from vf.runner import run_seq_job
         return run_seq_job(job, seq_ops(job), run_case)
